@@ -388,6 +388,8 @@ class EdgeQLSourceGenerator(codegen.SourceGenerator):
         self._visit_aliases(node)
 
         self._write_keywords('FOR ')
+        if node.optional:
+            self._write_keywords('OPTIONAL ')
         self.write(ident_to_str(node.iterator_alias))
         self._write_keywords(' IN ')
         self.visit(node.iterator)
